@@ -744,6 +744,24 @@ def generate_matrix(rng, t, avoid=(), n_steps=40):
     return g.steps, g.m, g.rejected
 
 
+def generate_small(rng, avoid=(), has_detach=True):
+    """a tiny history (<= 10 steps) through the byte-copy helpers: fill, overlapping set, copyWithin, slice, shrink, set
+    from an array — sized for Miri (minutes per program)"""
+    g = Gen(rng, has_detach=has_detach, avoid=avoid, f16=False, hostile_p=0.2)
+    r = rng
+    n = r.choice([16, 24, 32])
+    g.commit({"op": "mkbuf", "slot": 0, "shared": r.chance(0.25), "len": jn(float(n)), "max": jn(float(n + 8))})
+    g.commit({"op": "mkta", "slot": 0, "t": "Uint8", "b": 0})
+    t = r.choice([x for x in g.types if x != "Uint8"])
+    g.commit({"op": "mkta", "slot": 1, "t": t, "b": 0, "off": jn(float(TYPES[t][0] * r.range(0, 1)))})
+    for fn in (g.s_fill, g.s_set, g.s_set_ta, g.s_copy_within, g.s_slice, g.s_resize, g.s_set_arr, g.s_subarray):
+        for _ in range(6):
+            st = fn()
+            if st is not None and g.commit(st):
+                break
+    return g.steps, g.m, g.rejected
+
+
 # ---------------------------------------------------------------------------------------------------- rendering
 PROLOGUE = r"""
 var b=[],v=[],L={},K={raw:'ok'},TH={raw:'this'},BAD={raw:'not-this'};
